@@ -37,7 +37,8 @@ class GatedProcess(_FORK.Process):
 
     def run(self):
         os.close(self.gate_w)
-        os.read(self.gate_r, 1)
+        if os.read(self.gate_r, 1) == b'q':
+            os._exit(0)          # the worker ends with status 0 without ever reporting a result
         super().run()
 
     def release_and_join(self):
@@ -51,8 +52,14 @@ class GatedProcess(_FORK.Process):
         except OSError:
             pass
 
-    def kill_and_join(self):
-        self.kill()
+    def kill_and_join(self, quiet_exit=False):
+        if quiet_exit:
+            try:
+                os.write(self.gate_w, b'q')
+            except OSError:
+                self.kill()
+        else:
+            self.kill()
         self.join()
         try:
             os.close(self.gate_w)
@@ -119,7 +126,10 @@ class ScriptedExecutor(P.ProcessExecutor):
         SCRIPT.created.append(future)
         SCRIPT.submit_tids.append(getattr(kwargs.get('task'), 'label', -1))
         self._fid(future)
-        SCRIPT.ops.append(['submit', [], self._obs()])
+        obs = self._obs()
+        if obs['pendq'] and len(obs['running']) < self.max_workers:
+            SCRIPT.violations.append(('idle-slot', f"{len(obs['pendq'])} futures pending but only {len(obs['running'])} of {self.max_workers} workers running after submit()"))
+        SCRIPT.ops.append(['submit', [], obs])
         return future
 
     def wait(self, futures, *, timeout_seconds):
@@ -139,7 +149,7 @@ class ScriptedExecutor(P.ProcessExecutor):
             k = rng.choice([1, 1, 1, 2, len(alive)])
             for f, p in rng.sample(alive, min(k, len(alive))):
                 if rng.random() < SCRIPT.p_kill:
-                    p.kill_and_join()
+                    p.kill_and_join(quiet_exit=rng.random() < 0.5)      # SIGKILL, or an exit with status 0
                     envs.append(['kill', self._fid(f)])
                     SCRIPT.killed_fids.append(self._fid(f))
                 else:
